@@ -26,9 +26,18 @@ def build_probes(H, year, items):
     probes = []
     for it in items:
         vals_by_year = it['values'].get(str(year))
-        if not vals_by_year:
+        if vals_by_year is None:
             continue
+        if not isinstance(vals_by_year, dict):          # one amount for every filing status
+            vals_by_year = {sk: vals_by_year for sk in STATUS}
         pr = it['probe']
+
+        def expectation(e, amount):
+            if isinstance(e, dict):                       # differs by year
+                e = e[str(year)]
+            if e == 'amount':
+                return int(amount) if pr.get('int') else float(amount)
+            return e
         for sk, amount in vals_by_year.items():
             member = fs[STATUS[sk]]
             base_inps = dict(pr.get('inps', {}))
@@ -39,12 +48,19 @@ def build_probes(H, year, items):
                 lo, hi = (float(amount) - 0.01, float(amount)) if pr.get('at_is_above') else (float(amount), float(amount) + 0.01)
                 v1 = dict(pr['vals']); v1[pr['var']] = lo
                 v2 = dict(pr['vals']); v2[pr['var']] = hi
-                variants = [(v1, pr['below'], 'at'), (v2, pr['above'], 'just above')]
+                variants = [(v1, expectation(pr['below'], lo), 'at'), (v2, expectation(pr['above'], hi), 'just above')]
+                if pr.get('var_is_input'):
+                    variants = [(dict(pr['vals']), e, how, {pr['var']: v[pr['var']]}) for v, e, how in variants]
             else:
-                variants = [(dict(pr['vals']), float(amount), 'shows')]
-            for vals, expect, how in variants:
+                variants = [(dict(pr['vals']), expectation('amount', amount), 'shows')]
+            for var in variants:
+                vals, expect, how = var[:3]
+                inps = dict(base_inps)
+                if len(var) > 3:
+                    inps.update(var[3])
                 probes.append({'item': it['item'], 'status': sk, 'member': member, 'amount': amount, 'how': how,
-                               'form': pr['form'], 'line': pr.get('line_by_year', {}).get(str(year), pr['line']), 'vals': vals, 'inps': base_inps, 'forms': forms,
+                               'form': pr['form'], 'instance': pr.get('instance'),
+                               'line': pr.get('line_by_year', {}).get(str(year), pr['line']), 'vals': vals, 'inps': inps, 'forms': forms,
                                'expect': expect, 'cite': it['cite']})
     return probes, enums
 
@@ -54,7 +70,8 @@ def probe_coq(p, enums):
         return gen_forms.clist(['(%s, %s)' % (gen_forms.cstr(k), catalog.pv_of(v, enums)) for k, v in d.items()])
     e = p['expect']
     exp = 'XUnimpl' if e == 'unimpl' else '(XVal %s)' % catalog.pv_of(e, enums)
-    return '(%s, None, %s, %s, %s, %s, %s)' % (gen_forms.cstr(p['form']), gen_forms.cstr(p['line']), store(p['vals']), store(p['inps']),
+    inst = 'None' if not p.get('instance') else '(Some %s)' % gen_forms.cstr(p['instance'])
+    return '(%s, %s, %s, %s, %s, %s, %s)' % (gen_forms.cstr(p['form']), inst, gen_forms.cstr(p['line']), store(p['vals']), store(p['inps']),
                                                gen_forms.clist([gen_forms.cstr(f) for f in p['forms']]), exp)
 
 
@@ -67,8 +84,12 @@ def replay_real(H, year, p):
             self.forms = {}
     fsolver = FakeSolver()
     for fn in p['forms']:
-        fsolver.forms[fn] = classes[fn](solver=fsolver)
+        if fn == p['form'] and p.get('instance'):
+            fsolver.forms[fn] = classes[fn](solver=fsolver, instance=p['instance'])
+        else:
+            fsolver.forms[fn] = classes[fn](solver=fsolver)
     form = fsolver.forms[p['form']]
+    fq = p['form'] + (':' + p['instance'] if p.get('instance') else '')
     cand = [f for f in form.fields() if f.base_name() == p['line']]
     if not cand:
         return ('exc', 'no line %s in form %s' % (p['line'], p['form']))
@@ -77,7 +98,7 @@ def replay_real(H, year, p):
     class M(dict):
         def __getitem__(self, k):
             if '.' not in k:
-                k = '%s.%s' % (p['form'], k)
+                k = '%s.%s' % (fq, k)
             if k not in self:
                 raise KeyError('probe store lacks %s' % k)
             return dict.__getitem__(self, k)
@@ -95,10 +116,11 @@ def run(tier, seed):
     ck.trusted = ['Coq 8.16.1 kernel + vm_compute', 'tools/gen_forms.py (validated by translator validation)',
                   'oracles/statutory.json: hand transcription of Rev. Proc. 2020-45 / 2021-45 / 2022-38, IRC sections, N.C. D-401 (cited per item)',
                   'exact-decimal reading of float constants (the amounts are short decimals, exactly representable comparisons)',
-                  'coverage is the item list of the oracle (15 items); amounts not listed there are not checked']
+                  'coverage is the item list of the oracle; amounts not listed there are not checked']
     H = scenarios.habutax_modules()
     summ = catalog.generate(ck, H)
     items = json.load(open(os.path.join(common.ROOT, 'oracles', 'statutory.json')))['items']
+    ck.trusted[-1] = 'coverage is the item list of the oracle (%d items); amounts not listed there are not checked' % len(items)
     files = []
     for y in summ:
         probes, enums = build_probes(H, y, items)
